@@ -161,6 +161,7 @@ theorem runOps_inv {n} (cfg : Cfg n)
           (btp + (callF self to v body w l).btp) (deduct used limit (callF self to v body w l).used).1
         exact ⟨this.1.trans g.total, fun h => this.2 (g.nonneg h)⟩
     | fail code => simp [runOps]
+    | timeout => simp [runOps]
 
 theorem good_scriptFrame {n} (cfg : Cfg n) (fuel : Nat) :
     ∀ (inter : Bool) (f self : Fin n) (v : Int) (ops : List (Op n)) (w0 : World n) (limit : Nat),
@@ -311,9 +312,8 @@ theorem doExecute_used_le {n} (cfg : Cfg n) (fuel : Nat) (wInit w : World n) (tx
   · simp
   · split
     · exact h1
-    · split
-      · exact h2
-      · exact deduct_le _ _ _ h2
+    · repeat' split
+      all_goals first | exact h2 | exact Nat.le_refl _ | exact deduct_le _ _ _ h2
 
 theorem execTx_spec {n} (cfg : Cfg n) (fuel : Nat) (wInit w : World n) (tx : Tx n) :
     total (execTx cfg fuel wInit w tx).2 =
